@@ -2079,14 +2079,8 @@ def act_assignment(_, nodes):
 
 
 def act_recognizer_str(context, nodes):
+    # Escape sequences are already processed by `act_str_term`.
     value = nodes[0]
-    value = (
-        value.replace(r"\"", '"')
-        .replace(r"\'", "'")
-        .replace(r"\\", "\\")
-        .replace(r"\n", "\n")
-        .replace(r"\t", "\t")
-    )
     return StringRecognizer(value, ignore_case=context.extra.ignore_case)
 
 
@@ -2099,11 +2093,19 @@ def act_recognizer_regex(context, nodes):
     )
 
 
+STR_ESCAPES = {"\\": "\\", "'": "'", '"': '"', "n": "\n", "t": "\t"}
+
+
 def act_str_term(context, value):
     value = value[1:-1]
-    value = value.replace(r"\\", "\\")
-    value = value.replace(r"\'", "'")
-    return value
+    # Process escape sequences in a single pass so that the result of one
+    # escape is never taken as the beginning of another.
+    return re.sub(
+        r"\\(.)",
+        lambda m: STR_ESCAPES.get(m.group(1), m.group(0)),
+        value,
+        flags=re.DOTALL,
+    )
 
 
 def act_regex_term(context, value):
